@@ -1052,4 +1052,4 @@ def strategy(tier):
 
 
 def budget(tier):
-    return 300 if tier == "quick" else 6000
+    return 300 if tier == "quick" else 30000
